@@ -31,6 +31,7 @@ HARNESSES += [H(f"c10_shape_fit_k{k:02d}", functions=[P + "DeserializeFilesOrFie
                 bound=f"{['an empty file input', 'one file', 'two files'][k]} (symbolic 1-byte filename / content)", **G) for k in range(3)]
 HARNESSES += [H("c10_parse_three_files_template", functions=[F + "parse"], clauses=["parts are kept in submission order (a text field and three files under one name)"],
                 bound="ONE concrete conforming body (no symbolic byte): a symbolic execution of the real parser, not a quantified statement",
-                crate="ohkami_lib", strength="bounded", tier="quick", timeout=900, expect_covers=False)]
+                crate="ohkami_lib", strength="bounded", tier="thorough", timeout=1200, expect_covers=False)]
+JOBS = 6
 TRUSTED = ["byte_reader 3.1.1 executed symbolically, not specified", "ASSUMED CONTRACT: core::str::from_utf8 (spec/utf8.rs)"]
 ASSUMPTIONS = ["fixed boundary `b`, fixed names; forms of one part only; parser templates with non-empty symbolic content are not decided by CBMC within the limit (thorough tier, attempts); the struct-level glue of from_bytes::<T> (serde-derived field dispatch of the target struct) is NOT under a discharged contract; File's own derived Deserialize is executed"]
